@@ -20,9 +20,16 @@
 
 #define MAX_EVENTS 64
 
+/* What travels through the notification pipe: the key and the data of a completion in
+ * their full width (both are uintptr_t and may well be pointers). */
+typedef struct {
+    uintptr_t completion_key;
+    uintptr_t data;
+} notify_record_t;
+
 struct async_runtime_s {
     int epoll_fd;
-    int notify_pipe[2];  /* For worker completions: one 8-byte record per write */
+    int notify_pipe[2];  /* For worker completions: one notify_record_t per write */
     console_type_t console_type;  /* Detected console type */
 };
 
@@ -57,7 +64,7 @@ async_runtime_t* async_runtime_init(void) {
     }
     
     /* Create the notification pipe for worker notifications. Every write is one
-     * 8-byte record (atomic, as it is shorter than PIPE_BUF), so records posted by
+     * record (atomic, as it is shorter than PIPE_BUF), so records posted by
      * different threads, or faster than they are read, stay separate. */
     if (pipe2(runtime->notify_pipe, O_NONBLOCK | O_CLOEXEC) < 0) {
         close(runtime->epoll_fd);
@@ -65,6 +72,12 @@ async_runtime_t* async_runtime_init(void) {
         return NULL;
     }
     
+#ifdef F_SETPIPE_SZ
+    /* The records are two words now: ask for a pipe that holds as many of them as the
+     * default one held of the one-word records (best effort; the default holds 4096). */
+    (void)fcntl(runtime->notify_pipe[1], F_SETPIPE_SZ, 2 * 65536);
+#endif
+
     /* Add the read end to epoll */
     struct epoll_event ev = {0};
     ev.events = EPOLLIN;
@@ -126,9 +139,9 @@ int async_runtime_remove(async_runtime_t* runtime, socket_fd_t fd) {
 int async_runtime_wakeup(async_runtime_t* runtime) {
     if (!runtime || runtime->notify_pipe[1] < 0) return -1;
     
-    uint64_t val = 1;  /* a record of its own: completion key 0 */
-    ssize_t n = write(runtime->notify_pipe[1], &val, sizeof(val));
-    return (n == sizeof(val)) ? 0 : -1;
+    notify_record_t rec = { 0, 1 };  /* a record of its own: completion key 0 */
+    ssize_t n = write(runtime->notify_pipe[1], &rec, sizeof(rec));
+    return (n == sizeof(rec)) ? 0 : -1;
 }
 
 int async_runtime_wait(async_runtime_t* runtime, io_event_t* events,
@@ -156,15 +169,15 @@ int async_runtime_wait(async_runtime_t* runtime, io_event_t* events,
         /* Check if this is the notification pipe */
         if (epoll_events[i].data.ptr == runtime) {
             /* Drain the pipe and decode worker completions, one record each */
-            uint64_t val;
+            notify_record_t rec;
             while (event_count < max_events &&
-                   read(runtime->notify_pipe[0], &val, sizeof(val)) == sizeof(val)) {
+                   read(runtime->notify_pipe[0], &rec, sizeof(rec)) == sizeof(rec)) {
                 if (event_count < max_events) {
                     events[event_count].fd = -1;
-                    events[event_count].completion_key = (uintptr_t)(val >> 32);
+                    events[event_count].completion_key = rec.completion_key;
                     events[event_count].context = NULL;
                     events[event_count].event_type = EVENT_READ;
-                    events[event_count].bytes_transferred = (int)(val & 0xFFFFFFFF);
+                    events[event_count].bytes_transferred = (size_t)rec.data;
                     events[event_count].buffer = NULL;
                     event_count++;
                 }
@@ -188,10 +201,10 @@ int async_runtime_post_completion(async_runtime_t* runtime, uintptr_t completion
     if (!runtime || runtime->notify_pipe[1] < 0) return -1;
     
     /* Write a record to the pipe to wake up epoll_wait */
-    uint64_t val = (((uint64_t)completion_key) << 32) | (data & 0xFFFFFFFF);
-    ssize_t n = write(runtime->notify_pipe[1], &val, sizeof(val));
+    notify_record_t rec = { completion_key, data };
+    ssize_t n = write(runtime->notify_pipe[1], &rec, sizeof(rec));
     
-    return (n == sizeof(val)) ? 0 : -1;
+    return (n == sizeof(rec)) ? 0 : -1;
 }
 
 int async_runtime_post_read(async_runtime_t* runtime, socket_fd_t fd, void* buffer, size_t len) {
